@@ -68,10 +68,24 @@ CONTRACTS = [
                                       "forall(lambda j: implies(0 <= j and j < _i, words[j] == lower(ite(j % 2 == 0, "
                                       "odd_word(draws[j]), even_word(draws[j]))) and len(draws[j]) == 1))"]}},
              note="draws is the ghost sequence of os.urandom(1) results: one fresh draw per word, used for that word"),
+    Contract("wormhole/_allocator.py:Allocator.stash", props=[PROP], params={"length": "int", "wordlist": "obj[PGPWordList]"},
+             self_fields={"_length": "int", "_wordlist": "opt[obj[PGPWordList]]"}, modifies=["_length", "_wordlist"],
+             ensures=[("requested-length-recorded", "self._length == length"),
+                      ("wordlist-recorded", "self._wordlist is wordlist")],
+             note="allocate_code(n) before the connection is up: the requested number of words is what is remembered"),
+    Contract("wormhole/_allocator.py:Allocator.stash_and_RC_rx_allocate", props=[PROP],
+             params={"length": "int", "wordlist": "obj[PGPWordList]"},
+             self_fields={"_length": "int", "_wordlist": "opt[obj[PGPWordList]]", "_RC": "obj[IRendezvousConnector]"},
+             modifies=["_length", "_wordlist"],
+             ensures=[("requested-length-recorded", "self._length == length"),
+                      ("wordlist-recorded", "self._wordlist is wordlist")],
+             effects=[("tx_allocate", [])],
+             note="allocate_code(n) while already connected: same record, plus exactly one 'allocate' request"),
     Contract("wormhole/_allocator.py:Allocator.build_and_notify", props=[PROP], params={"nameplate": "str"},
              self_fields={"_wordlist": "obj[PGPWordList]", "_length": "int", "_C": "obj[ICode]"},
              ensures=[("code", "bcalls('allocated') == 1 and bcall_arg('allocated', 0, 0) == nameplate and "
                                "bcall_arg('allocated', 0, 1) == nameplate + '-' + call_result('choose_words')"),
+                      ("words-drawn-for-exactly-the-recorded-length", "call_arg('choose_words', 0, 1) == self._length"),
                       ("nothing-else", "len(bcall_names()) == 1")]),
     Contract("wormhole/_wordlist.py:PGPWordList.get_completions", props=[PROP],
              params={"prefix": "str", "num_words": "int"}, self_fields={},
